@@ -647,14 +647,6 @@ def keyring_PublicKeyLookupRequest_UnmarshalText : List String := [
   "return nil"
 ]
 
-def keyring_PublicKeyLookupResult_WasValidAt : List String := [
-  "func func(atTs spec.Timestamp, signatureValidityCheck SignatureValidityCheckFunc) bool",
-  "if r.ExpiredTS != PublicKeyNotExpired {",
-  "return atTs < r.ExpiredTS",
-  "}",
-  "return signatureValidityCheck(atTs, r.ValidUntilTS)"
-]
-
 def keyring__NoStrictValidityCheck : List String := [
   "func func(_, _ spec.Timestamp) bool",
   "return true"
@@ -962,6 +954,6 @@ def redactevent_unredactableEventFieldsV2_SetContent : List String := [
   "u.Content = content"
 ]
 
-def functions : List String := ["eventcrypto.go:.VerifyAllEventSignatures", "eventcrypto.go:.VerifyEventSignatures", "eventcrypto.go:.addContentHashesToEvent", "eventcrypto.go:.checkEventContentHash", "eventcrypto.go:.emptyAuthorisedViaServerName", "eventcrypto.go:.extractAuthorisedViaServerName", "eventcrypto.go:.getMXIDMapping", "eventcrypto.go:.membershipForSignatures", "eventcrypto.go:.referenceOfEvent", "eventcrypto.go:.referenceOfEventForVersion", "eventcrypto.go:.signEvent", "eventcrypto.go:.validateMXIDMappingSignatures", "keyring.go:DirectKeyFetcher.FetchKeys", "keyring.go:DirectKeyFetcher.FetcherName", "keyring.go:DirectKeyFetcher.fetchKeysForServer", "keyring.go:DirectKeyFetcher.fetchNotaryKeysForServer", "keyring.go:JSONVerifierSelf.VerifyJSONs", "keyring.go:KeyRing.VerifyJSONs", "keyring.go:KeyRing.checkUsingKeys", "keyring.go:KeyRing.isAlgorithmSupported", "keyring.go:KeyRing.publicKeyRequests", "keyring.go:PerspectiveKeyFetcher.FetchKeys", "keyring.go:PerspectiveKeyFetcher.FetcherName", "keyring.go:PublicKeyLookupRequest.MarshalText", "keyring.go:PublicKeyLookupRequest.UnmarshalText", "keyring.go:PublicKeyLookupResult.WasValidAt", "keyring.go:.NoStrictValidityCheck", "keyring.go:.StrictValiditySignatureCheck", "keyring.go:.mapServerKeysToPublicKeyLookupResult", "keyring.go:type DirectKeyFetcher", "keyring.go:type JSONVerifier", "keyring.go:type JSONVerifierSelf", "keyring.go:type KeyClient", "keyring.go:type KeyDatabase", "keyring.go:type KeyFetcher", "keyring.go:type KeyRing", "keyring.go:type PerspectiveKeyFetcher", "keyring.go:type PublicKeyLookupRequest", "keyring.go:type PublicKeyLookupResult", "keyring.go:type PublicKeyNotaryLookupRequest", "keyring.go:type PublicKeyNotaryQueryCriteria", "keyring.go:type SignatureValidityCheckFunc", "keyring.go:type VerifyJSONRequest", "keyring.go:type VerifyJSONResult", "keys.go:ServerKeys.MarshalJSON", "keys.go:ServerKeys.PublicKey", "keys.go:ServerKeys.UnmarshalJSON", "keys.go:.CheckKeys", "keys.go:.checkVerifyKeys", "keys.go:type Ed25519Checks", "keys.go:type KeyChecks", "keys.go:type OldVerifyKey", "keys.go:type ServerKeyFields", "keys.go:type ServerKeys", "keys.go:type VerifyKey", "redactevent.go:.exactFieldsOnly", "redactevent.go:.exactMembersOnly", "redactevent.go:.redactEventJSON", "redactevent.go:.redactEventJSONV1", "redactevent.go:.redactEventJSONV2", "redactevent.go:.redactEventJSONV3", "redactevent.go:.redactEventJSONV4", "redactevent.go:.redactEventJSONV5", "redactevent.go:type unredactableEvent", "redactevent.go:type unredactableEventFieldsV1", "redactevent.go:type unredactableEventFieldsV2", "redactevent.go:unredactableEventFieldsV1.GetContent", "redactevent.go:unredactableEventFieldsV1.GetType", "redactevent.go:unredactableEventFieldsV1.SetContent", "redactevent.go:unredactableEventFieldsV2.GetContent", "redactevent.go:unredactableEventFieldsV2.GetType", "redactevent.go:unredactableEventFieldsV2.SetContent"]
+def functions : List String := ["eventcrypto.go:.VerifyAllEventSignatures", "eventcrypto.go:.VerifyEventSignatures", "eventcrypto.go:.addContentHashesToEvent", "eventcrypto.go:.checkEventContentHash", "eventcrypto.go:.emptyAuthorisedViaServerName", "eventcrypto.go:.extractAuthorisedViaServerName", "eventcrypto.go:.getMXIDMapping", "eventcrypto.go:.membershipForSignatures", "eventcrypto.go:.referenceOfEvent", "eventcrypto.go:.referenceOfEventForVersion", "eventcrypto.go:.signEvent", "eventcrypto.go:.validateMXIDMappingSignatures", "keyring.go:DirectKeyFetcher.FetchKeys", "keyring.go:DirectKeyFetcher.FetcherName", "keyring.go:DirectKeyFetcher.fetchKeysForServer", "keyring.go:DirectKeyFetcher.fetchNotaryKeysForServer", "keyring.go:JSONVerifierSelf.VerifyJSONs", "keyring.go:KeyRing.VerifyJSONs", "keyring.go:KeyRing.checkUsingKeys", "keyring.go:KeyRing.isAlgorithmSupported", "keyring.go:KeyRing.publicKeyRequests", "keyring.go:PerspectiveKeyFetcher.FetchKeys", "keyring.go:PerspectiveKeyFetcher.FetcherName", "keyring.go:PublicKeyLookupRequest.MarshalText", "keyring.go:PublicKeyLookupRequest.UnmarshalText", "keyring.go:.NoStrictValidityCheck", "keyring.go:.StrictValiditySignatureCheck", "keyring.go:.mapServerKeysToPublicKeyLookupResult", "keyring.go:type DirectKeyFetcher", "keyring.go:type JSONVerifier", "keyring.go:type JSONVerifierSelf", "keyring.go:type KeyClient", "keyring.go:type KeyDatabase", "keyring.go:type KeyFetcher", "keyring.go:type KeyRing", "keyring.go:type PerspectiveKeyFetcher", "keyring.go:type PublicKeyLookupRequest", "keyring.go:type PublicKeyLookupResult", "keyring.go:type PublicKeyNotaryLookupRequest", "keyring.go:type PublicKeyNotaryQueryCriteria", "keyring.go:type SignatureValidityCheckFunc", "keyring.go:type VerifyJSONRequest", "keyring.go:type VerifyJSONResult", "keys.go:ServerKeys.MarshalJSON", "keys.go:ServerKeys.PublicKey", "keys.go:ServerKeys.UnmarshalJSON", "keys.go:.CheckKeys", "keys.go:.checkVerifyKeys", "keys.go:type Ed25519Checks", "keys.go:type KeyChecks", "keys.go:type OldVerifyKey", "keys.go:type ServerKeyFields", "keys.go:type ServerKeys", "keys.go:type VerifyKey", "redactevent.go:.exactFieldsOnly", "redactevent.go:.exactMembersOnly", "redactevent.go:.redactEventJSON", "redactevent.go:.redactEventJSONV1", "redactevent.go:.redactEventJSONV2", "redactevent.go:.redactEventJSONV3", "redactevent.go:.redactEventJSONV4", "redactevent.go:.redactEventJSONV5", "redactevent.go:type unredactableEvent", "redactevent.go:type unredactableEventFieldsV1", "redactevent.go:type unredactableEventFieldsV2", "redactevent.go:unredactableEventFieldsV1.GetContent", "redactevent.go:unredactableEventFieldsV1.GetType", "redactevent.go:unredactableEventFieldsV1.SetContent", "redactevent.go:unredactableEventFieldsV2.GetContent", "redactevent.go:unredactableEventFieldsV2.GetType", "redactevent.go:unredactableEventFieldsV2.SetContent"]
 
 end VPins.C06
